@@ -519,8 +519,8 @@ C17_Step(s, e) ==
           failedOps == { w \in Writes(e) : w.kind = "Pod" /\ w.verb \in {"create", "delete"} /\ ~w.ok }
       IN (failedOps # {}) =>
            /\ NT(<<"C17", Cardinality(failedOps), e.res.nErrs>>)
-           /\ e.res.err \/ e.res.requeue
-           /\ (AllOK(StatusWrites(e, "ERS")) /\ FullSync(e)) =>
+           /\ AllOK(StatusWrites(e, "ERS")) => e.res.err        \* reflected in the error the sync reports ...
+           /\ (AllOK(StatusWrites(e, "ERS")) /\ FullSync(e)) =>   \* ... and in the conditions
                 (r2.conds.ReconcileError.true \/ (r2.conds.PodsCleanupDone.present /\ ~r2.conds.PodsCleanupDone.true))
 
 
